@@ -251,6 +251,13 @@ def build_program(rs):
             ns["execute"] = class_execute
             ns["on_enable"] = en_rebind
             ns["on_disable"] = dis_unbind
+        if c.get("dict_rebind") and not late and not c.get("sm"):
+            def dis_rebind(self, _inner=ns.get("on_disable")):
+                if _inner is not None:
+                    _inner(self)
+                self.__dict__ = dict(self.__dict__)
+
+            ns["on_disable"] = dis_rebind
         for attr, default in c.get("resets", {}).items():
             if rs.get("share_markers"):
                 # one marker object may be bound under several names (REQUEST = will_reset_to(False);
@@ -352,6 +359,18 @@ def build_program(rs):
             rns[h] = robotPeriodic
         else:
             rns[h] = _cb(f"robot.{h}")
+    if rs.get("tia_late"):
+        # the teleop-in-autonomous switch is only set at run time (the first disabledInit, which precedes every
+        # enabled mode): the class says the opposite; what counts is the value when autonomous starts
+        rns["use_teleop_in_autonomous"] = not bool(rs.get("tia"))
+        inner_di = rns.get("disabledInit")
+
+        def disabledInit(self, _inner=inner_di):
+            self.use_teleop_in_autonomous = bool(rs.get("tia"))
+            if _inner is not None:
+                _inner(self)
+
+        rns["disabledInit"] = disabledInit
     for fb in rs.get("rfbs", []):
         rns[fb["m"]] = _make_feedback("robot", fb)
     base = magicbot.MagicRobot
@@ -696,14 +715,14 @@ def tags(step):
 
 _I = st.integers
 _FB_CODE = st.tuples(_I(0, 7), _I(0, 2), _I(0, 13), st.lists(_I(0, 19), min_size=1, max_size=3))
-_COMP_CODE = st.tuples(_I(0, 63), _I(0, 2), _I(0, 1), _I(0, 1), st.lists(_FB_CODE, max_size=2), _I(0, 4))
+_COMP_CODE = st.tuples(_I(0, 127), _I(0, 2), _I(0, 1), _I(0, 1), st.lists(_FB_CODE, max_size=2), _I(0, 4))
 _ROBOT_CODE = st.tuples(
     st.lists(_COMP_CODE, max_size=4), _I(0, 4), _I(0, 255), st.booleans(), _I(0, 5),
     st.lists(st.booleans(), max_size=2), _I(0, 6), st.lists(_FB_CODE, max_size=2),
 )
 _HIST_CODE = st.lists(st.tuples(_I(0, 6), _I(1, 6)), min_size=1, max_size=8)
 HIST_MODES = ("disabled", "auto", "teleop", "test", "auto", "disabled", "teleop")  # repeated autonomous / teleop periods are common
-_FAULT_CODE = st.lists(st.tuples(_I(0, 63), _I(0, 5)), min_size=1, max_size=3)
+_FAULT_CODE = st.lists(st.tuples(_I(0, 63), _I(0, 5), _I(0, 4)), min_size=1, max_size=3)
 _WRITE_CODE = st.lists(st.tuples(_I(0, 7), _I(1, 6), _I(0, 7), _I(0, 6)), max_size=4)
 _CHUNK_CODE = st.lists(st.lists(_I(1, 4_999), max_size=3), max_size=4)
 
@@ -777,6 +796,10 @@ def decode_robot(code):
             # a hook the component does not have is spelled out as None (class attribute `on_disable = None`, the way
             # a subclass opts out of an inherited hook): still "no hook"
             c["none_hooks"] = True
+        if flags & 64 and not c.get("sm") and not c.get("late_hooks") and not c.get("none_hooks"):
+            # on_disable() restores a snapshot of the component's attributes by assigning self.__dict__ (a new dict
+            # object with the same contents): the component is still the same object with the same attributes
+            c["dict_rebind"] = True
         c["resets"] = {(f"_r{j}" if (rv + j) % 3 == 0 else f"r{j}"): RESET_VALUES[(rv + j) % 5] for j in range(nres)}  # markers may be private names too
         c["base_resets"] = {f"b{j}": RESET_VALUES[(rv + 2 + j) % 5] for j in range(nbres)}
         if nres == 2 and flags % 4 == 3:
@@ -800,6 +823,8 @@ def decode_robot(code):
     }
     if hooks_c % 3 == 0:
         rs["share_markers"] = True
+    if hooks_c % 5 == 2 and not rs["inst_cfg"]:
+        rs["tia_late"] = True
     names = ["A", "B mode"]
     for i, d in enumerate(modes_c):
         rs["modes"].append({"n": names[i], "def": bool(d) and not any(m.get("def") for m in rs["modes"])})
@@ -846,15 +871,17 @@ def decode_faults(code, rs):
     if not sites:
         return out
     seen = set()
-    for s, occ in code:
+    for s, occ, kind in code:
         site = sites[s % len(sites)]
         if site in seen:
             continue
         seen.add(site)
         f = {"site": site, "occ": [[1], [2], [3], [1, 2], "all", [2, 5]][occ]}
-        if s % 5 == 0:
+        # (the kind of exception used to be derived from the site code, which made some site / kind pairs
+        # unreachable when the number of sites was a multiple of 5)
+        if kind == 0:
             f["base"] = True  # raise a BaseException subclass instead of an Exception subclass
-        elif s % 5 == 1:
+        elif kind == 1:
             f["attr"] = True  # raise an AttributeError subclass (the kind of error a missing hook lookup would raise)
         out.append(f)
     return out
@@ -915,6 +942,11 @@ def robot_cases(pid, deep=False):
         case = {"robot": rs, "hist": decode_hist(hcode), "fms": fms}
         if pid == "C07":
             case["faults"] = decode_faults(fcode, rs)
+            if rs.get("tia") and "teleopPeriodic" in rs["hooks"] and fcode[0][0] % 3 == 0 and case["faults"] and not any(f["site"] == "robot.teleopPeriodic" for f in case["faults"]):
+                # teleopPeriodic run during autonomous is a site of its own in the statement: make sure it is not rare
+                case["faults"][0]["site"] = "robot.teleopPeriodic"
+                if not any(seg[0] == "auto" for seg in case["hist"]):
+                    case["hist"].append(["auto", 3])
             if wcode and wcode[0][3] >= 3:
                 # the FMS flag changes at some mode changes (value taken from spare bits of the code)
                 f = fms
